@@ -4,7 +4,7 @@
    run-time panic (slice or index out of range, explicit panic); the theorems say that no input
    whatsoever reaches Panic. *)
 From Verif Require Import Prelude Gen Frame FrameProofs SwitchLabel SwitchLabelProofs Table Control Forward
-  LinkFrame LinkFrameProofs Address AddressProofs Dns DnsProofs Malformed MalformedProofs.
+  LinkFrame LinkFrameProofs Address AddressProofs Dns DnsProofs Malformed MalformedProofs TranslatedDec.
 
 (* Tie to the code: every bounds check the models contain is present in the source and dominates
    the slice or index expression it protects (go/ast, regenerated on every run). *)
@@ -86,3 +86,20 @@ Print Assumptions C13_build_blocks_no_panic.
 Theorem C13_no_lock_left_held : Gen.locks_released = true /\ (0 < Gen.lock_acquisitions)%nat.
 Proof. split; [reflexivity | vm_compute; lia]. Qed.
 Print Assumptions C13_no_lock_left_held.
+
+(* ---------- the frame decoder as translated from the Go source ---------- *)
+(* Every index expression data[i] and slice expression data[a:b] of ParseFrame / ParseFrameV1 is
+   translated with its bound check (DPanic when it fails; the bound is the LENGTH of the frame, so
+   this also excludes reading pooled-buffer bytes between len and cap).  For arbitrary bytes the
+   translated decoder never reaches DPanic. *)
+Theorem C13_source_parse_no_panic : forall d, bytes_ok d -> Gen.go_Builder_ParseFrame d <> DPanic.
+Proof. intros d H. apply go_parse_no_panic; [exact H | reflexivity | reflexivity]. Qed.
+Print Assumptions C13_source_parse_no_panic.
+
+(* the link frame's three slice expressions on any chunk that passed Unseal's size check *)
+Theorem C13_source_link_ranges : forall len, (28 <= len)%Z ->
+  Gen.go_LinkFrame_Nonce len = DOk [0; 12]%Z /\
+  Gen.go_LinkFrame_LinkData len = DOk [12; len - 16]%Z /\
+  Gen.go_LinkFrame_LinkDataWithAuth len = DOk [12; len]%Z.
+Proof. exact go_link_ranges. Qed.
+Print Assumptions C13_source_link_ranges.
